@@ -11,15 +11,15 @@ package main
 
 import (
 	"fmt"
-	"runtime"
 	"os"
+	"runtime"
 	"runtime/debug"
 	"runtime/pprof"
-	"time"
 	"sort"
 	"strings"
 	"sync"
 	"sync/atomic"
+	"time"
 
 	"github.com/thought-machine/please/src/core"
 	"github.com/thought-machine/please/src/gc"
@@ -39,9 +39,9 @@ var kindNames = []string{"library", "binary", "test", "test_only_library"}
 type witness struct {
 	Names        []string   `json:"names"`
 	Kinds        []string   `json:"kinds"`
-	Edges        [][2]int   `json:"edges"` // declared dependencies i -> j
-	Provide      *[3]int    `json:"provide,omitempty"` // [provider j, provided k, requirer i]: j provides {"l": k}, i requires "l"
-	Mark         int        `json:"mark"`              // index of the marked target, -1 none
+	Edges        [][2]int   `json:"edges"`               // declared dependencies i -> j
+	Provide      *[3]int    `json:"provide,omitempty"`   // [provider j, provided k, requirer i]: j provides {"l": k}, i requires "l"
+	Mark         int        `json:"mark"`                // index of the marked target, -1 none
 	MarkMode     string     `json:"mark_mode,omitempty"` // label | named | subinclude
 	Conservative bool       `json:"conservative"`
 	Srcs         [][]string `json:"srcs,omitempty"` // per target, relative to its package
@@ -222,16 +222,58 @@ func overlap(a, b string) bool {
 // ---------------------------------------------------------------------------------------------------------------
 // real code
 
-func runReal(w *witness) (removed map[string]bool, srcs []string, err string) {
+// built is a real graph for one (names, edges, provide) skeleton; kinds, marks and srcs/data are (re)applied in place
+// before every evaluation, so one skeleton serves many cases without paying for a new 512-shard BuildGraph each time.
+type built struct {
+	g      *core.BuildGraph
+	ts     []*core.BuildTarget
+	labels []core.BuildLabel
+	pkgs   map[string]*core.Package
+	pkgOf  []*core.Package
+}
+
+func buildSkeleton(w *witness) *built {
 	g := core.NewGraph()
 	n := len(w.Names)
-	ts := make([]*core.BuildTarget, n)
-	labels := make([]core.BuildLabel, n)
-	pkgs := map[string]*core.Package{}
+	b := &built{g: g, ts: make([]*core.BuildTarget, n), labels: make([]core.BuildLabel, n), pkgs: map[string]*core.Package{}, pkgOf: make([]*core.Package, n)}
 	for i, s := range w.Names {
 		l := core.ParseBuildLabel(s, "")
-		labels[i] = l
+		b.labels[i] = l
 		t := core.NewBuildTarget(l)
+		p := b.pkgs[l.PackageName]
+		if p == nil {
+			p = core.NewPackage(l.PackageName)
+			b.pkgs[l.PackageName] = p
+			g.AddPackage(p)
+		}
+		b.pkgOf[i] = p
+		b.ts[i] = t
+		g.AddTarget(t)
+		p.AddTarget(t)
+	}
+	for _, e := range w.Edges {
+		b.ts[e[0]].AddDependency(b.labels[e[1]])
+	}
+	if p := w.Provide; p != nil {
+		b.ts[p[0]].AddProvide("l", []core.BuildLabel{b.labels[p[1]]})
+		b.ts[p[2]].AddRequire("l")
+	}
+	for _, t := range b.ts {
+		if e := t.ResolveDependencies(g); e != nil {
+			lib.Fatal("resolve: %s on %+v", e, *w)
+		}
+	}
+	return b
+}
+
+// runOn applies the per-case attributes of w to the skeleton and runs the real dry-run computation.
+func runOn(b *built, w *witness) (removed map[string]bool, srcs []string) {
+	n := len(w.Names)
+	for _, p := range b.pkgs {
+		p.Subincludes = nil
+	}
+	for i, t := range b.ts {
+		t.IsBinary, t.Test, t.TestOnly = false, nil, false
 		switch kindIdx(w.Kinds[i]) {
 		case kBin:
 			t.IsBinary = true
@@ -242,69 +284,52 @@ func runReal(w *witness) (removed map[string]bool, srcs []string, err string) {
 		case kTestOnlyLib:
 			t.TestOnly = true
 		}
-		p := pkgs[l.PackageName]
-		if p == nil {
-			p = core.NewPackage(l.PackageName)
-			pkgs[l.PackageName] = p
-			g.AddPackage(p)
+		t.Labels = nil
+		if w.Provide != nil && w.Provide[2] == i {
+			t.Labels = []string{"l"} // AddRequire made the requirement an implicit label
 		}
+		t.Sources, t.Data = nil, nil
 		if w.Srcs != nil {
 			for _, s := range w.Srcs[i] {
-				t.AddSource(core.NewFileLabel(s, p))
+				t.AddSource(core.NewFileLabel(s, b.pkgOf[i]))
 			}
 		}
 		if w.Data != nil {
 			for _, s := range w.Data[i] {
-				t.AddDatum(core.NewFileLabel(s, p))
+				t.AddDatum(core.NewFileLabel(s, b.pkgOf[i]))
 			}
 		}
-		ts[i] = t
-		g.AddTarget(t)
-		p.AddTarget(t)
-	}
-	for _, e := range w.Edges {
-		ts[e[0]].AddDependency(labels[e[1]])
-	}
-	if p := w.Provide; p != nil {
-		ts[p[0]].AddProvide("l", []core.BuildLabel{labels[p[1]]})
-		ts[p[2]].AddRequire("l")
 	}
 	var keepLabels []string
 	var named []core.BuildLabel
 	if w.Mark >= 0 {
 		switch w.MarkMode {
 		case "label":
-			ts[w.Mark].AddLabel("keepme")
+			b.ts[w.Mark].AddLabel("keepme")
 			keepLabels = []string{"keepme"}
 		case "named":
-			named = []core.BuildLabel{labels[w.Mark]}
+			named = []core.BuildLabel{b.labels[w.Mark]}
 		case "subinclude":
-			p := pkgs[labels[(w.Mark+1)%n].PackageName]
-			p.Subincludes = append(p.Subincludes, labels[w.Mark])
-		}
-	}
-	for _, t := range ts {
-		if e := t.ResolveDependencies(g); e != nil {
-			return nil, nil, "resolve: " + e.Error()
+			p := b.pkgOf[(w.Mark+1)%n]
+			p.Subincludes = append(p.Subincludes, b.labels[w.Mark])
 		}
 	}
 	// exactly as src/please.go wires it: gc.keep is passed both expanded (targets) and raw (targetsToKeep)
-	rm, rs := gc.VerifTargetsToRemoveC25(g, nil, named, named, keepLabels, w.Conservative)
+	rm, rs := gc.VerifTargetsToRemoveC25(b.g, nil, named, named, keepLabels, w.Conservative)
 	removed = map[string]bool{}
 	for _, l := range rm {
 		removed[l.String()] = true
 	}
-	return removed, rs, ""
+	return removed, rs
 }
 
+func eval(w *witness) (string, string, bool) { return evalOn(buildSkeleton(w), w) }
+
 // eval returns (symptom, detail, nontrivial).
-func eval(w *witness) (string, string, bool) {
+func evalOn(b *built, w *witness) (string, string, bool) {
 	m := newModel(w)
 	need, why := m.needed()
-	removed, rsrcs, e := runReal(w)
-	if e != "" {
-		lib.Fatal("%s on %+v", e, *w)
-	}
+	removed, rsrcs := runOn(b, w)
 	nontrivial := false
 	for i := range need {
 		if !need[i] {
@@ -619,8 +644,8 @@ func less(a, b *witness) bool {
 		}
 		return 0
 	}
-	ka := []int{len(a.Names), len(a.Edges), cnt(a.Srcs) + cnt(a.Data), hid(a.Names), mk(a), renamed(a.Names)}
-	kb := []int{len(b.Names), len(b.Edges), cnt(b.Srcs) + cnt(b.Data), hid(b.Names), mk(b), renamed(b.Names)}
+	ka := []int{mk(a), len(a.Names), len(a.Edges), cnt(a.Srcs) + cnt(a.Data), hid(a.Names), renamed(a.Names)}
+	kb := []int{mk(b), len(b.Names), len(b.Edges), cnt(b.Srcs) + cnt(b.Data), hid(b.Names), renamed(b.Names)}
 	for i := range ka {
 		if ka[i] != kb[i] {
 			return ka[i] < kb[i]
@@ -641,11 +666,34 @@ var (
 	cnt     struct{ evals, nontrivial, spaceT, spaceS int64 }
 )
 
+// symptomOnly: symptoms whose class does not depend on the shape of the shrunk witness. For these the smallest raw
+// instance (canonical order) is kept and shrunk once at the end; every other violation is shrunk on the spot because its
+// class is read off the minimal witness.
+func symptomOnly(symptom string) bool {
+	return symptom == "test-of-kept-target-proposed" || symptom == "parent-of-needed-subtarget-proposed" || strings.HasPrefix(symptom, "source-deleted")
+}
+
+var raws = map[string]*found{} // symptom -> smallest raw instance
+
 func record(w witness, symptom string) {
 	for i := 0; i < 2; i++ {
 		if s, _, _ := eval(&w); s != symptom {
 			lib.Fatal("HARNESS-NONDETERMINISM: %+v gave %q then %q", w, symptom, s)
 		}
+	}
+	if symptomOnly(symptom) {
+		foundMu.Lock()
+		defer foundMu.Unlock()
+		f := raws[symptom]
+		if f == nil {
+			raws[symptom] = &found{w: w, count: 1}
+			return
+		}
+		f.count++
+		if less(&w, &f.w) {
+			f.w = w
+		}
+		return
 	}
 	sw := shrink(w.clone(), symptom)
 	cl := classOf(&sw, symptom)
@@ -660,6 +708,15 @@ func record(w witness, symptom string) {
 	f.count++
 	if less(&sw, &f.w) {
 		f.w, f.detail = sw, d
+	}
+}
+
+// finishRaws shrinks the smallest raw instance of every symptom-only class.
+func finishRaws() {
+	for symptom, f := range raws {
+		sw := shrink(f.w.clone(), symptom)
+		_, d, _ := eval(&sw)
+		founds[classOf(&sw, symptom)] = &found{w: sw, detail: d, count: f.count}
 	}
 }
 
@@ -744,22 +801,22 @@ func spaceT(names []string, es [][2]int, kinds []int, markModes []string, modes 
 			}
 		}
 	}
-	for ka := 0; ka < pow(len(kinds), n); ka++ {
-		ks := make([]string, n)
-		x := ka
-		ok := true
-		for i := 0; i < n; i++ {
-			k := kinds[x%len(kinds)]
-			x /= len(kinds)
-			if hiddenIdx[i] && k != kLib {
-				ok = false // hidden sub-targets are plain internals
+	for _, pv := range provs {
+		for ka := 0; ka < pow(len(kinds), n); ka++ {
+			ks := make([]string, n)
+			x := ka
+			ok := true
+			for i := 0; i < n; i++ {
+				k := kinds[x%len(kinds)]
+				x /= len(kinds)
+				if hiddenIdx[i] && k != kLib {
+					ok = false // hidden sub-targets are plain internals
+				}
+				ks[i] = kindNames[k]
 			}
-			ks[i] = kindNames[k]
-		}
-		if !ok {
-			continue
-		}
-		for _, pv := range provs {
+			if !ok {
+				continue
+			}
 			for _, cons := range modes {
 				emit(witness{Names: names, Kinds: ks, Edges: es, Provide: pv, Mark: -1, Conservative: cons})
 				for mk := 0; mk < n; mk++ {
@@ -822,12 +879,18 @@ func main() {
 		r.Finish(lib.Coverage{Evaluations: 1, DistinctNontrivial: 1, Rule: "replay", Samples: []any{w}, Exhaustive: true})
 	}
 	var samples lib.Samples
+	// one() is called once per (naming scheme, edge set): the closure keeps the real graph skeleton of the last provide decoration.
 	one := func(ctr *int64) func(w witness) {
+		var sk *built
+		var skProv *[3]int
 		return func(w witness) {
 			if !valid(&w) {
 				return
 			}
-			s, _, nt := eval(&w)
+			if sk == nil || skProv != w.Provide {
+				sk, skProv = buildSkeleton(&w), w.Provide
+			}
+			s, _, nt := evalOn(sk, &w)
 			ev := atomic.AddInt64(&cnt.evals, 1)
 			atomic.AddInt64(ctr, 1)
 			if nt {
@@ -931,6 +994,7 @@ func main() {
 			exhaustive = false
 		}
 	}
+	finishRaws()
 	var classes []string
 	for cl := range founds {
 		classes = append(classes, cl)
